@@ -178,3 +178,76 @@ Theorem C13_driver_capture_is_model : forall so nsims tcap x y L, x < nsims ->
   WaveCaptureGpuDrvSrc.inst_src (so_locs so) (KV.Proofs.WaveDriversProofs.caps_z so) tcap (Z.of_nat (so_nlines so + 3 + so_slen so))
     (Z.of_nat nsims) (Z.of_nat x) (Z.of_nat y) L = KV.Proofs.WaveDriversProofs.capture_step so tcap y L.
 Proof. exact KV.Proofs.WaveDriversProofs.capture_gpu_inst_is_model. Qed.
+
+(** ACTIVITY UNDER strip_forks (round 4b; closes "abuf under strip_forks only through the alias run").  With strip_forks = True
+    (any c_reuse), under the hypotheses of the strip theorems (C06_wave_strip_forks_irrelevant: zero delay on fork inputs, the
+    stem waveforms of the UNSTRIPPED run strictly increasing and fitting every branch region) the compared memory-level model
+    is total and its accumulation buffer is
+      (1) the accumulation, over the ops the STRIPPED schedule keeps (build_ops c true: the fork ops are not executed), of
+          the (nrise, nfall) each kept op returns when evaluated on the UNSTRIPPED line-level waveforms -- op i adds
+          nrise * a_wr + nfall * a_wf of its a_ctrl row to its accumulator;
+      (2) if the scratch slot of output-less gates does not accumulate (what SimOps builds from a per-line a_ctrl table):
+          accumulator a = the weighted rising / falling transitions of the UNSTRIPPED waveform of the output LINE of every kept
+          op whose row names a.
+    What it means for a user: SimOps attaches a_ctrl[line] to the op that WRITES the line; a fork branch line is written by a
+    fork op, which strip_forks removes -- the row of a fork branch is attached to no op and accumulates NOTHING (no error), while
+    without strip_forks it counts the branch waveform (= the stem waveform under these hypotheses).  To count a net with
+    strip_forks the accumulator has to sit on the STEM line (C13_strip_branch_row_lost: witness, confirmed on the real code). *)
+From KV Require Proofs.WaveStripAcc.
+Theorem C13_wavesim_model_activity_strip : forall c caps reuse delays actrl abuf_len s extra tcap,
+  wf_netlist c -> comb_acyclic c -> KV.Proofs.EndToEnd.gates_known c -> length (c_lines c) <= length caps ->
+  KV.Proofs.WaveSimGlue.extra_ok c extra ->
+  let dl := dl_of delays in let cp := lcap (length (c_lines c)) caps in let e0 := wenv0 c s extra in
+  let eu := wexec dl cp (build_ops c false) e0 in
+  build_stems c true (KV.Proofs.LogicSimGlue.std_len c) <> None -> KV.Proofs.ReuseStrip.forks_ok c -> KV.Proofs.WaveSimGlue.forks_single c ->
+  KV.Proofs.WaveSimGlue.wave_inputs_ok c dl (stim_wave s extra) -> KV.Proofs.WaveSimGlue.strip_side c dl cp eu ->
+  exists r, wsim_case c caps reuse true delays actrl abuf_len s extra tcap = Some r /\
+    w_abuf r = KV.Proofs.WaveStripAcc.acc_cnt actrl 0 (build_ops c true) (wop_counts dl cp eu) (repeat 0%Z abuf_len) /\
+    (KV.Proofs.WaveStripAcc.scratch_off c actrl ->
+     forall a, a < abuf_len -> nth a (w_abuf r) 0%Z = wsa_final actrl 0 (build_ops c true) eu a).
+Proof. exact KV.Proofs.WaveStripAcc.wavesim_model_activity_strip. Qed.
+(** ... with all hypotheses discharged by evaluation (what the check evaluates on every generated strip_forks case) *)
+Theorem C13_wavesim_model_activity_strip_b : forall c caps reuse delays actrl abuf_len s extra tcap,
+  KV.Proofs.WaveSimGlue.wglue_hyps_b c caps true delays s extra = true ->
+  let dl := dl_of delays in let cp := lcap (length (c_lines c)) caps in let e0 := wenv0 c s extra in
+  let eu := wexec dl cp (build_ops c false) e0 in
+  exists r, wsim_case c caps reuse true delays actrl abuf_len s extra tcap = Some r /\
+    w_abuf r = KV.Proofs.WaveStripAcc.acc_cnt actrl 0 (build_ops c true) (wop_counts dl cp eu) (repeat 0%Z abuf_len) /\
+    (KV.Proofs.WaveStripAcc.scratch_off_b c actrl = true ->
+     forall a, a < abuf_len -> nth a (w_abuf r) 0%Z = wsa_final actrl 0 (build_ops c true) eu a).
+Proof. exact KV.Proofs.WaveStripAcc.wavesim_model_activity_strip_b. Qed.
+(** a kept op that writes a line, evaluated on the unstripped waveforms, returns the unstripped waveform of that line (why (1) is (2)) *)
+Theorem C13_strip_kept_op_fixpoint : forall c caps delays s extra, wf_netlist c -> comb_acyclic c ->
+  let dl := dl_of delays in let cp := lcap (length (c_lines c)) caps in
+  let eu := wexec dl cp (build_ops c false) (wenv0 c s extra) in
+  forall o, In o (build_ops c true) -> s_out o <> length (c_lines c) + 1 -> wop dl cp eu o = eu (s_out o).
+Proof. exact KV.Proofs.WaveStripAcc.kept_op_fixpoint. Qed.
+(** the hypotheses are satisfiable (fork with three branches, multi-transition stimulus) ... *)
+Theorem C13_activity_strip_hyps_example :
+  let c := KV.Proofs.WaveStrip.StripWaveExample.cxw in let dls := KV.Proofs.WaveSimGlue.WaveGlueExample.dls in
+  let ss := KV.Proofs.WaveSimGlue.WaveGlueExample.ss in let ex := KV.Proofs.WaveSimGlue.WaveGlueExample.ex in
+  wf_netlist c /\ comb_acyclic c /\ KV.Proofs.EndToEnd.gates_known c /\ length (c_lines c) <= length (repeat 8%N 6) /\
+  KV.Proofs.WaveSimGlue.extra_ok c ex /\
+  build_stems c true (KV.Proofs.LogicSimGlue.std_len c) <> None /\ KV.Proofs.ReuseStrip.forks_ok c /\ KV.Proofs.WaveSimGlue.forks_single c /\
+  KV.Proofs.WaveSimGlue.wave_inputs_ok c (dl_of dls) (stim_wave ss ex) /\
+  KV.Proofs.WaveSimGlue.strip_side c (dl_of dls) (lcap 6 (repeat 8%N 6))
+    (wexec (dl_of dls) (lcap 6 (repeat 8%N 6)) (build_ops c false) (wenv0 c ss ex)) /\
+  KV.Proofs.WaveStripAcc.scratch_off c (KV.Proofs.WaveStripAcc.StripAccExample.actrl_of (build_ops c true)).
+Proof. exact KV.Proofs.WaveStripAcc.StripAccExample.cxw_strip_hyps. Qed.
+(** ... and on it the row of fork branch line 2 (accumulator 1) counts 3 transitions unstripped and nothing stripped, while the
+    stem (accumulator 0) and the and-gate (accumulator 2) accumulate the same in both runs *)
+Theorem C13_strip_branch_row_lost :
+  let c := KV.Proofs.WaveStrip.StripWaveExample.cxw in let dls := KV.Proofs.WaveSimGlue.WaveGlueExample.dls in
+  let ss := KV.Proofs.WaveSimGlue.WaveGlueExample.ss in let ex := KV.Proofs.WaveSimGlue.WaveGlueExample.ex in
+  let actrl_of := KV.Proofs.WaveStripAcc.StripAccExample.actrl_of in
+  option_map w_abuf (wsim_case c (repeat 8%N 6) false false dls (actrl_of (build_ops c false)) 3 ss ex (Fin 30)) = Some [3; 3; 3]%Z /\
+  option_map w_abuf (wsim_case c (repeat 8%N 6) false true dls (actrl_of (build_ops c true)) 3 ss ex (Fin 30)) = Some [3; 0; 3]%Z /\
+  map (wsa_final (actrl_of (build_ops c true)) 0 (build_ops c true)
+         (wexec (dl_of dls) (lcap 6 (repeat 8%N 6)) (build_ops c false) (wenv0 c ss ex))) [0; 1; 2] = [3; 0; 3]%Z.
+Proof. exact KV.Proofs.WaveStripAcc.StripAccExample.strip_branch_row_lost. Qed.
+(** the stripped schedule has no op that writes a branch line of a stripped fork -- so wsa_final over build_ops c true never
+    mentions the a_ctrl row of such a line (SimOps attaches a_ctrl[line] to the op that writes the line: C01_simops_ops_source_is_model) *)
+From KV Require Import Model.NetlistSem.
+Theorem C13_strip_branch_no_op : forall c n ol, wf_netlist c -> n < length (c_nodes c) -> iface_pos c n = None ->
+  is_fork (get_node c n) = true -> In ol (somes (n_outs (get_node c n))) -> forall o, In o (build_ops c true) -> s_out o <> ol.
+Proof. exact KV.Proofs.WaveStripAcc.strip_branch_no_op. Qed.
